@@ -419,6 +419,39 @@ def mapping_first_unguarded(repo: Repo) -> list[tuple]:
     return out
 
 
+def _cond_path_nonempty(repo: Repo) -> str | None:
+    """Every ``Path(token, segments)`` built in the repository receives a non-empty segment list: a
+    list literal with elements, or a local that the path conditions at the construction know to be
+    truthy (``if not segments: raise`` before it).  ``Path.evaluate*`` hand ``context.get*`` a list of
+    the same length, so ``next(iter(path))`` there cannot raise StopIteration."""
+    from ..guards import canon, conditions
+
+    n = 0
+    for f in repo.all_functions():
+        cls = repo.resolve_in(f.module, "Path")
+        if getattr(cls, "qual", None) != "liquid.builtin.expressions.path.Path":
+            continue
+        for st, cs in conditions(f.node):
+            if isinstance(st, (ast.If, ast.For, ast.AsyncFor, ast.While, ast.With, ast.AsyncWith, ast.Try)):
+                continue
+            for c in ast.walk(st):
+                if isinstance(c, ast.Call) and is_name(c.func, "Path") and len(c.args) + len(c.keywords) >= 2:
+                    n += 1
+                    seg = c.args[1] if len(c.args) > 1 else next((k.value for k in c.keywords if k.arg == "path"), None)
+                    if isinstance(seg, (ast.List, ast.Tuple)) and seg.elts:
+                        continue
+                    have = {canon(k) for k in cs}
+                    if isinstance(seg, ast.Name) and ({seg.id, f"len({seg.id}) > 0", f"len({seg.id}) != 0", f"len({seg.id}) >= 1"} & have):
+                        continue
+                    return f"{f.qual}: `{text(c)[:50]}` can build a Path without segments (path conditions: {sorted(have)}); context.get would raise StopIteration for it"
+    for m in ("evaluate", "evaluate_async"):
+        f = repo.own_method("liquid.builtin.expressions.path.Path", m)
+        calls_ = [c for c in ast.walk(f.node) if isinstance(c, ast.Call) and callee_name(c) in ("get", "get_async")]
+        if not calls_ or not all(c.args and isinstance(c.args[0], ast.ListComp) and len(c.args[0].generators) == 1 and text(c.args[0].generators[0].iter) == "self.path" and not c.args[0].generators[0].ifs for c in calls_):
+            return f"{f.qual}: context.get is no longer handed one item per segment of self.path"
+    return None if n else "no Path(token, segments) construction found"
+
+
 def _cond_mapping_first_nonempty(repo: Repo) -> str | None:
     bad = mapping_first_unguarded(repo)
     return f"{bad[0][0].qual}: {bad[0][2]}" if bad else None
@@ -443,8 +476,8 @@ REVIEWED = {
     "liquid.builtin.tags.cycle_tag.CycleNode.render_to_output_async|x[k<len]:args[index]|IndexError": ("as the sync twin", _cond_cycle_nonneg),
     "liquid.builtin.tags.increment_tag.IncrementNode.render_to_output|str(int):context.increment(self.name)|ValueError": ("a counter starts at 0 and moves by one per executed tag: its magnitude is bounded by the number of tag executions, never near the 4300-digit limit", _cond_counters_small),
     "liquid.builtin.tags.decrement_tag.DecrementNode.render_to_output|str(int):context.decrement(self.name)|ValueError": ("as increment", _cond_counters_small),
-    "liquid.context.RenderContext.get|next():it|StopIteration": ("a parsed Path always has at least one segment", None),
-    "liquid.context.RenderContext.get_async|next():it|StopIteration": ("a parsed Path always has at least one segment", None),
+    "liquid.context.RenderContext.get|next():it|StopIteration": ("a parsed Path always has at least one segment", _cond_path_nonempty),
+    "liquid.context.RenderContext.get_async|next():it|StopIteration": ("a parsed Path always has at least one segment", _cond_path_nonempty),
     "liquid.context._segments_str|next():it|StopIteration": ("called with the non-empty segment list of a Path", None),
     "liquid.context.RenderContext.get_item|next():itertools.islice(obj.items(), 1)|StopIteration": ("guarded by `isinstance(obj, Mapping) and obj` — a non-empty mapping", _cond_mapping_first_nonempty),
     "liquid.context.RenderContext.get_item_async|next():itertools.islice(obj.items(), 1)|StopIteration": ("as the sync twin", _cond_mapping_first_nonempty),
@@ -707,5 +740,7 @@ def selftest(repo: Repo):
         v("translate-vars-regex-lookbehind", "liquid/extra/tags/translate_tag.py", 're_vars = re.compile(r"(?<!%)(?:%%)*%\\((\\w+)\\)s")', 're_vars = re.compile(r"(?<!%)%\\((\\w+)\\)s")', "C02-ESCAPE"),
         v("root-name-bare-str", "liquid/context.py", "                name = to_str(root)\n", "                name = str(root)\n", "C02-ESCAPE", count=2),
         v("segments-str-before-root-check", "liquid/context.py", "                name = to_str(root)\n                hint = f\"{name} is undefined\"\n", "                name = to_str(root)\n                hint = f\"{_segments_str(path[:1])} is undefined\"\n", "C02-ESCAPE", count=2),
+        v("path-may-be-empty", "liquid/builtin/expressions/path.py", "        if not segments:\n            raise LiquidSyntaxError(\n                \"missing or unexpected path segment\",\n                token=tokens.current,\n            )\n\n", "", "C02-ESCAPE"),
+        v("first-of-empty-mapping", "liquid/context.py", "                if isinstance(obj, Mapping) and obj:\n", "                if isinstance(obj, Mapping):\n", "C02-ESCAPE", count=2),
         v("babel-format-unguarded", "liquid/extra/filters/babel.py", "        except (ArithmeticError, ValueError, OSError) as err:\n            # Timestamps out of range for the platform, NaN.\n", "        except KeyError as err:\n            # Timestamps out of range for the platform, NaN.\n", "C02-ESCAPE"),
     ]
